@@ -117,9 +117,15 @@ func (f *FixedUintField) GenReadFrom() (string, error) {
 
 	gen := func(name string) {
 		if f.l == 1 {
+			// The element must announce exactly the one octet that is read: any other
+			// length would leave the reader inside this element or in the middle of the next
+			g.printlnf("if l != 1 {")
+			g.printlnf("err = enc.ErrFormat{Msg: \"fixed-width integer is not 1 octet long\"}")
+			g.printlnf("} else {")
 			g.printlnf("%s, err = reader.ReadByte()", name)
 			g.printlnf("if err == io.EOF {")
 			g.printlnf("err = io.ErrUnexpectedEOF")
+			g.printlnf("}")
 			g.printlnf("}")
 		} else {
 			const Temp = `{{.Name}} = {{.Digit}}(0)
@@ -159,9 +165,15 @@ func (f *FixedUintField) GenReadFrom() (string, error) {
 		// Special case for a single byte - directly use wire address
 		// This is useful to modify the TLV in-place (e.g. HopLimit)
 		if f.l == 1 {
+			// The pointer must be to the value octet of this element: with any other announced
+			// length (e.g. 0) the octet skipped here belongs to the next element
+			g.printlnf("if l != 1 {")
+			g.printlnf("err = enc.ErrFormat{Msg: \"fixed-width integer is not 1 octet long\"}")
+			g.printlnf("} else {")
 			g.printlnf("err = reader.Skip(1)")
 			g.printlnf("if err == io.EOF {")
 			g.printlnf("err = io.ErrUnexpectedEOF")
+			g.printlnf("}")
 			g.printlnf("}")
 			g.printlnf("if err == nil {")
 			g.printlnf("if byteRange := reader.Range(reader.Pos()-1, reader.Pos()); len(byteRange) == 1 && len(byteRange[0]) == 1 {")
